@@ -100,6 +100,7 @@ def fam_macros():
     for v, p in itertools.product(values, pats):
         src = "{v}='%s'\nkeep {v=%s} this\nalso {v!%s} that\nplain" % (v, p, p)
         out.append(one(src, 0))
+        out.append(one("{v}='%s'\nfirst\nlast {v=%s}\n\n- item\n  more {v!%s}\n\nt:: d {v=%s}" % (v, p, p, p), 0))
     return out
 
 
@@ -157,7 +158,7 @@ def fam_options():
 def fam_blockdefs():
     names = ['paragraph', 'code', 'indented', 'quote', 'quote-paragraph', 'division', 'html', 'comment', 'macro-definition']
     opts = ['+macros', '-macros', '+spans', '-spans', '+specials', '-specials', '+skip', '-skip', '+container', '-container',
-            '<x>|</x>', '<x class="c">|</x> +spans', '+Spans', '-SPECIALS', '+bogus']
+            '<x>|</x>', '<x class="c">|</x> +spans', '+Spans', '-SPECIALS', '+bogus', '<hr>|', '|</x>', '<x>|', '<x> | </x>', '|']
     probes = {'paragraph': 'para *e* {m} <b>', 'code': '``\n*e* {m} <b>\n``', 'indented': '  *e* {m} <b>', 'quote': '""\n*e* {m} <b>\n""',
               'quote-paragraph': '> *e* {m} <b>', 'division': '..\n*e* {m} <b>\n..', 'html': '<div>*e* {m}</div>',
               'comment': '/*\n*e* {m}\n*/', 'macro-definition': "{q}='*e*\n{m}'\n{q}"}
@@ -241,7 +242,7 @@ def fam_redefs():
 
 
 # ---- U: non-ASCII text and unusual white space --------------------------------------------------
-UWORDS = ['\u00e9t\u00e9', 'Stra\u00dfe', '\u65e5\u672c', '\u03a9mega', '\u01c5x', '\u0663\u0664', 'na\u00efve', '\u00c9COLE', 'x\u00a0y', 'a\u2028b', 'a\u000bb', 'a\u000cb',
+UWORDS = ['\ufeff', '\ufeff# H', '\u00e9t\u00e9', 'Stra\u00dfe', '\u65e5\u672c', '\u03a9mega', '\u01c5x', '\u0663\u0664', 'na\u00efve', '\u00c9COLE', 'x\u00a0y', 'a\u2028b', 'a\u000bb', 'a\u000cb',
           'a\u0085b', 'a\u200bb', 'a\u3000b', '\ufb01n', '\u212a', 'e\u0301', '\U0001f600', '\u00aa\u00ba']
 UCTX = ['# %s', '## %s %s', '.#%s\npara', '.%s\npara', '."c:%s"\npara', '.[title="%s"]\npara', '- %s', '%s:: d', 't:: %s', '*%s*', '`%s`', '_%s_ x_%s',
         '[%s](%s)', '<http://%s.b|%s>', '<%s@x.yz>', 'http://a.b/%s', '<image:%s|%s>', '<<#%s>>', '&%s;', '{%s}=\'V\'\n{%s}', "{m}='$1'\n{m|%s}",
